@@ -4,5 +4,5 @@ CONSTANTS
   NSeeds <- MCNSeeds
   Emit = TRUE
 INVARIANTS
-  RelWindows RelCoefs PairLists ChainOK GuardHolds EmitRec
+  RelWindows RelCoefs PairLists ChainOK GuardHolds SplineOK BondedOK EmitRec
 CHECK_DEADLOCK FALSE
